@@ -1496,6 +1496,9 @@ class TimePoint:
         """Returns a copy of this TimePoint with truncated time properties
         added to it."""
         new = self._copy()
+        if new._hour_of_day == CALENDAR.HOURS_IN_DAY:
+            # The 24:00 end-of-day form is 00:00 on the next day.
+            new._tick_over()
         if hour_of_day is not None and minute_of_hour is None:
             minute_of_hour = 0
         if ((hour_of_day is not None or minute_of_hour is not None) and
